@@ -311,6 +311,10 @@ pub enum Shape {
     Independence,
     MainLeavesEarly,
     FailingTask,
+    /// two tasks read from the same channel: every value goes to exactly one of them
+    CompetingReaders,
+    /// a request carries the channel on which the answer is expected
+    ChannelInMessage,
 }
 
 pub const DETERMINATE: &[Shape] = &[
@@ -318,6 +322,7 @@ pub const DETERMINATE: &[Shape] = &[
     Shape::WriterDiesFirst,
     Shape::RequestResponse,
     Shape::Independence,
+    Shape::ChannelInMessage,
 ];
 
 pub const ALL: &[Shape] = &[
@@ -328,6 +333,8 @@ pub const ALL: &[Shape] = &[
     Shape::Independence,
     Shape::MainLeavesEarly,
     Shape::FailingTask,
+    Shape::CompetingReaders,
+    Shape::ChannelInMessage,
 ];
 
 pub fn generate(rng: &mut Rng, shapes: &[Shape], print_from_main: bool) -> Workload {
@@ -516,6 +523,41 @@ pub fn generate(rng: &mut Rng, shapes: &[Shape], print_from_main: bool) -> Workl
             obs.push((0, kind.mk(0, 1).show()));
             projection = Projection::MainOnly;
             drains = false;
+        }
+        Shape::CompetingReaders => {
+            let per_reader = rng.range(1, 3) as i64;
+            src.push_str(&format!("fn consume(inp: channel<{ty}>, out: channel<string>, n: int) {{\n    for i in n {{\n        let x = inp.read()\n"));
+            src.push_str(&maybe_pause(rng, "        "));
+            src.push_str(&maybe_work(rng, "        "));
+            src.push_str("        out.write(show(x))\n    }\n}\n\n");
+            src.push_str(&format!("let c: channel<{ty}> = channel()\nlet res: channel<string> = channel()\n"));
+            src.push_str(&format!("task {{\n    consume(c, res, {per_reader})\n}}\ntask {{\n    consume(c, res, {per_reader})\n}}\n"));
+            src.push_str(&format!("for i in {} {{\n    c.write(mk(0, i))\n", 2 * per_reader));
+            src.push_str(&maybe_pause(rng, "    "));
+            src.push_str("}\n");
+            src.push_str(&format!("for i in {} {{\n    {}}}\n", 2 * per_reader, say(7, "res.read()")));
+            for i in 0..2 * per_reader {
+                obs.push((7, kind.mk(0, i).show()));
+            }
+            sorted_only = true;
+            projection = Projection::None;
+        }
+        Shape::ChannelInMessage => {
+            src.push_str(&format!("type Req = {{\n    val: {ty}\n    reply: channel<string>\n}}\n\n"));
+            src.push_str("fn serve(reqs: channel<Req>, n: int) {\n    for i in n {\n        let r = reqs.read()\n");
+            src.push_str(&maybe_pause(rng, "        "));
+            src.push_str("        r.reply.write(show(touch(r.val, 4)))\n");
+            src.push_str(&maybe_work(rng, "        "));
+            src.push_str("    }\n}\n\n");
+            src.push_str("let reqs: channel<Req> = channel()\n");
+            src.push_str(&format!("task {{\n    serve(reqs, {m})\n}}\n"));
+            src.push_str(&format!("for i in {m} {{\n    let mine: channel<string> = channel()\n    let x = mk(0, i)\n    reqs.write(Req(x, mine))\n"));
+            src.push_str(&maybe_pause(rng, "    "));
+            src.push_str(&format!("    {}}}\n", say(0, "mine.read() .. \"/\" .. show(x)").replace("obs(0,", "obs(i,").replace("[0]", "[\" .. i .. \"]")));
+            for i in 0..m {
+                let v = kind.mk(0, i);
+                obs.push((i, format!("{}/{}", v.touch(4).show(), v.show())));
+            }
         }
         Shape::FailingTask => {
             let ok = rng.range(1, 3) as i64;
